@@ -58,6 +58,10 @@ def solve_lin(A, b_cols):
 
 def chain_reach(n, succ, finals):
     """Exact probability of ever visiting `finals` in the Markov chain succ[s] = [(p, t), ...]."""
+    if n > 12:
+        order = topo_order(succ)
+        if order is not None:
+            return dp_chain_reach(n, succ, finals, order)
     fin = set(finals)
     can = set(fin)
     changed = True
@@ -409,3 +413,122 @@ def reachable_from(tl, start=0):
                 seen.add(t)
                 todo.append(t)
     return seen
+
+
+# ---------------------------------------------------------------------- exact dynamic programming on acyclic games
+# For games without cycles (apart from the self-loops of absorbing states) max-min values follow by backward induction
+# over a topological order: exact, linear in the size of the game and independent of the number of choices, so games
+# with hundreds of states and player states can be decided exactly.
+
+def topo_order(tl):
+    """states ordered so that every successor comes before its predecessors, ignoring self-loops of states whose
+    transitions are all self-loops; None if the graph has another cycle"""
+    n = len(tl)
+    succ = []
+    for s in range(n):
+        ts = set(t for _, t in tl[s])
+        if ts == {s}:
+            ts = set()
+        succ.append(ts)
+    if any(s in succ[s] for s in range(n)):
+        return None
+    indeg = [0] * n
+    pred = [[] for _ in range(n)]
+    for s in range(n):
+        for t in succ[s]:
+            pred[t].append(s)
+    remaining = [len(succ[s]) for s in range(n)]
+    order = [s for s in range(n) if remaining[s] == 0]
+    i = 0
+    while i < len(order):
+        t = order[i]
+        i += 1
+        for s in pred[t]:
+            remaining[s] -= 1
+            if remaining[s] == 0:
+                order.append(s)
+    return order if len(order) == n else None
+
+
+def dp_reach(players, tl, finals, order, restrict1=None, restrict2=None):
+    fin = set(finals)
+    v = [F(0)] * len(players)
+    for s in order:
+        if s in fin:
+            v[s] = F(1)
+            continue
+        row = tl[s]
+        if not row or all(t == s for _, t in row):
+            v[s] = F(0)
+            continue
+        who = players[s]
+        if who == PR:
+            v[s] = sum((p * v[t] for p, t in row), F(0))
+        else:
+            r = (restrict1 if who == P1 else restrict2) or {}
+            idxs = r.get(s, range(len(row)))
+            vals = [v[row[i][1]] for i in idxs]
+            v[s] = max(vals) if who == P1 else min(vals)
+    return v
+
+
+def dp_depth(tl, order, states=None):
+    """longest path (number of steps through non-absorbing states) from each state"""
+    d = [0] * len(tl)
+    for s in order:
+        row = tl[s]
+        if not row or all(t == s for _, t in row):
+            d[s] = 0
+        else:
+            d[s] = 1 + max(d[t] for _, t in row)
+    return d
+
+
+class DPRewardGame:
+    """same interface as RewardGame (values, max_time) for acyclic conditioned games of any size"""
+
+    def __init__(self, players, tl, order, restrict1=None, restrict2=None):
+        self.players, self.tl, self.order = players, tl, order
+        self.r1, self.r2 = restrict1 or {}, restrict2 or {}
+        self.depth = dp_depth(tl, order)
+
+    def values(self, rew):
+        v = [F(0)] * len(self.players)
+        for s in self.order:
+            row = self.tl[s]
+            if not row:
+                v[s] = F(0)
+                continue
+            if all(t == s for _, t in row):
+                v[s] = inf if rew[s] > 0 else F(0)
+                continue
+            who = self.players[s]
+            if who == PR:
+                acc = F(0)
+                for p, t in row:
+                    if v[t] == inf:
+                        acc = inf
+                        break
+                    acc += p * v[t]
+                v[s] = acc if acc == inf else to_frac(rew[s]) + acc
+            else:
+                r = self.r1 if who == P1 else self.r2
+                idxs = r.get(s, range(len(row)))
+                vals = [v[row[i][1]] for i in idxs]
+                best = max(vals) if who == P1 else min(vals)
+                v[s] = best if best == inf else to_frac(rew[s]) + best
+        return v
+
+    def max_time(self, states):
+        return F(max([self.depth[s] for s in states] or [0]))
+
+
+def dp_chain_reach(n, succ, finals, order):
+    fin = set(finals)
+    v = [F(0)] * n
+    for s in order:
+        if s in fin:
+            v[s] = F(1)
+        elif succ[s] and not all(t == s for _, t in succ[s]):
+            v[s] = sum((p * v[t] for p, t in succ[s]), F(0))
+    return v
